@@ -56,6 +56,8 @@ def showEv : Ev → String
 def showRes : Res → String
   | .errName | .errIdna | .errNoToken | .errPolicy | .errCache | .errIssue => "err"
   | .token c => s!"cert:{c.id}"
+  | .tokenMem c => s!"cert:{c.id}"
+  | .expiredNotServed => "expired-not-served"
   | .served c => if c.id == 0 then "issued" else s!"cert:{c.id}"
   | .issued _ => "issued"
 
@@ -93,7 +95,10 @@ def world? (o : Op) : Option World := do
     | some s => (keyed? cacheVal? s).map some
   let st ← (o.get? "state").bind (keyed? stateVal?)
   let ca ← (o.get? "ca").bind ca?
-  pure ⟨wl, cache, st, ca⟩
+  let toks ← match o.get? "tokens" with
+    | none => some []
+    | some s => keyed? cert? s
+  pure { whitelist := wl, cache := cache, state := st, ca := ca, tokens := toks }
 
 def joinOr (l : List String) : String := if l.isEmpty then "-" else ",".intercalate l
 
@@ -121,7 +126,7 @@ def sortS (l : List String) : List String := l.foldr insertS []
 
 /-- a history of calls on one Manager: `calls=<i>@<now>,…` refers to hellos `h<i>.…`;
     the per-call observables are joined by `|` -/
-def runCalls (o : Op) (w : World) : List String → Option (List (List Ev × Res))
+def runCalls (spec : Bool) (o : Op) (w : World) : List String → Option (List (List Ev × Res))
   | [] => some []
   | c :: rest =>
     match c.splitOn "@" with
@@ -129,15 +134,17 @@ def runCalls (o : Op) (w : World) : List String → Option (List (List Ev × Res
       let now ← t.toInt?
       let h ← hello? o s!"h{i}."
       let a ← ascii? o s!"h{i}.ascii"
-      let (evs, res, st) := getCertificate w h a now
-      let r ← runCalls o { w with state := st } rest
+      -- `spec`: answer what the property demands (a stale m.state entry is not served); the state is
+      -- threaded as the code does it in both cases
+      let (evs, res, st) := if spec then conform w h a now else getCertificate w h a now
+      let r ← runCalls spec o { w with state := st } rest
       pure ((evs, res) :: r)
     | _ => none
 
 def handleHist (o : Op) : String :=
   match world? o, o.get? "calls" with
   | some w, some cs =>
-    match runCalls o w (cs.splitOn ",") with
+    match runCalls true o w (cs.splitOn ",") with
     | some rs => "|".intercalate (rs.map fun (evs, res) => s!"{showRes res} ev={joinOr (evs.map showEv)}")
     | none => "bad-op"
   | _, _ => "bad-op"
@@ -146,7 +153,7 @@ def handleHist (o : Op) : String :=
 def handleConc (o : Op) : String :=
   match world? o, o.get? "calls" with
   | some w, some cs =>
-    match runCalls o w (cs.splitOn ",") with
+    match runCalls false o w (cs.splitOn ",") with
     | some rs =>
       let evs := (rs.map (·.1)).flatten
       let orders := sortS (evs.filterMap fun | .order d => some (toHex d) | _ => none)
